@@ -167,7 +167,14 @@ class PlaceSession:
     def set_target_ipos(self, pos):
         """re-assign the target agent's initial position through the public setter (between resets)"""
         tgt = self.w.agent_list[self.o["target"]]
-        tgt.initial_position = None if pos is None else np.array(pos)
+        cur = tgt.initial_position
+        self._ipos_calls = getattr(self, "_ipos_calls", 0) + 1
+        if pos is not None and isinstance(cur, np.ndarray) and cur.shape == (2,) and self._ipos_calls % 2 == 0:
+            # every other time the configured array is EDITED IN PLACE (`agent.initial_position[:] = ...`, `+= delta`):
+            # the same object with other numbers; what a component derived from the old numbers must not survive
+            cur[:] = pos
+        else:
+            tgt.initial_position = None if pos is None else np.array(pos)
         self.stat = self.w.stat_wire()
 
     def set_flags(self, o):
